@@ -6,7 +6,20 @@ import (
 	vrt "github.com/wader/fq/internal/zzvrt"
 )
 
-func VerifASCIIWriter() { verifASCIIWriter(6) }
+func VerifASCIIWriter() { verifASCIIWriter(5) }
+
+// VerifSafeASCII: the character shown for a byte is the byte itself when it is
+// printable ASCII and a dot otherwise, always exactly one character.
+func VerifSafeASCII() {
+	c := vrt.Uint8("c")
+	s := SafeASCII(c)
+	vrt.Assert(len(s) == 1, "SafeASCII yields one character")
+	if c >= 32 && c <= 126 {
+		vrt.Assert(s[0] == c, "SafeASCII keeps printable characters")
+	} else {
+		vrt.Assert(s[0] == '.', "SafeASCII replaces everything else by a dot")
+	}
+}
 
 // VerifASCIIWriterWide: thorough tier, widths up to 16.
 func VerifASCIIWriterWide() { verifASCIIWriter(16) }
@@ -19,7 +32,9 @@ func verifASCIIWriter(maxWidth int) {
 	c1 := vrt.IntRange("cut1", 0, n)
 	c2 := vrt.IntRange("cut2", c1, n)
 	var out bytes.Buffer
-	w := New(&out, width, start, SafeASCII)
+	// the layout does not depend on the per-byte rendering (checked on its own above):
+	// a one-character identity rendering keeps the data symbolic without a fork per byte
+	w := New(&out, width, start, func(b byte) string { return string([]byte{b}) })
 	for _, chunk := range [][]byte{data[:c1], data[c1:c2], data[c2:]} {
 		if len(chunk) == 0 && vrt.Choice("skipEmpty", 2) == 1 {
 			continue
@@ -42,13 +57,9 @@ func verifASCIIWriter(maxWidth int) {
 	for i, b := range data {
 		off := start + i
 		idx := (off/width)*rowLen + off%width
-		want := b
-		if b < 32 || b > 126 {
-			want = '.'
-		}
-		bad |= got[idx] ^ want
+		bad |= got[idx] ^ b
 	}
-	vrt.Assert(bad == 0, "ascii column: the cell of an offset holds the printable character of that byte or a dot")
+	vrt.Assert(bad == 0, "ascii column: the cell of an offset holds the character rendered for that byte")
 	ok := true
 	for idx := 0; idx < wantLen; idx++ {
 		col := idx % rowLen
